@@ -13,16 +13,6 @@ PropSel == IOEnv.PROP
 
 VARIABLE ri
 
-PropsOf(p, cfg, obs) ==
-  CASE p = "C01" -> C01(cfg, obs)
-    [] p = "C02" -> C02(cfg, obs)
-    [] p = "C03" -> C03(cfg, obs)
-    [] p = "C04" -> C04(cfg, obs)
-    [] p = "C05" -> C05(cfg, obs)
-    [] p = "C07" -> C07(cfg, obs)
-    [] p = "C17" -> C17(cfg, obs)
-    [] OTHER -> {}
-
 TInit == ri \in 1..Len(Recs)
 TNext == UNCHANGED ri
 TSpec == TInit /\ [][TNext]_ri
